@@ -459,6 +459,37 @@ def stmt_macro_value(t):
     return None
 
 
+def peep_special_cases(rep):
+    """B10: peepBCall rewrites a handful of builtins by hand (case labels of its switch) before the table-driven peephole runs.
+    Each such rewrite is one more evaluator of the builtin; the confirmed ones are frozen with the reason they agree with the
+    other evaluators.  A label that is not in the frozen set is an unconfirmed rewrite (for instance `a quo 2^k` as an arithmetic
+    shift, which rounds the other way for negative a): the check refuses to pass until its equivalence has been established by
+    hand.  A frozen label that disappears is only noted."""
+    frozen = json.load(open(os.path.join(os.path.dirname(__file__), "frozen", "c04_peep_special.json")))
+    f = common.extract("of_peep.c", trees=["peepBCall"])
+    fn = f.func("peepBCall")
+    labels = set()
+    for sw in common.walk(fn["body"]):
+        if sw["k"] != "SwitchStmt":
+            continue
+        for g in common.switch_cases(sw):
+            for l in g["labels"]:
+                if l[0] and l[0].startswith("FOAM_BVal_"):
+                    labels.add(l[0])
+    if not labels:
+        raise common.AnalysisBroken("peepBCall: no `case FOAM_BVal_...` labels found")
+    new = sorted(labels - set(frozen))
+    for l in sorted(labels & set(frozen)):
+        rep.ok("B10", "peephole-special-case:%s" % l[len("FOAM_BVal_"):], nontrivial=False)
+    for l in sorted(set(frozen) - labels):
+        rep.note("B10: the hand-written peephole case for %s is gone" % l)
+    if new:
+        raise common.AnalysisBroken("peepBCall has hand-written rewrites for %s that have not been confirmed against the other "
+                                    "evaluators of these builtins (folder, interpreter, C, Java): establish the equivalence for "
+                                    "every operand value -- sign, zero and boundary cases included -- and add them to "
+                                    "rules/frozen/c04_peep_special.json" % ", ".join(x[len("FOAM_BVal_"):] for x in new))
+
+
 def run(tier, only=None):
     rep = common.Report("C04", tier, EXPLANATION)
     f_foam = common.extract("foam.c")
@@ -807,6 +838,7 @@ def run(tier, only=None):
         if not sites:
             rep.ok("B7", "no-narrow-shift:" + unit, nontrivial=False)
     carry_steps(rep)
+    peep_special_cases(rep)
     from . import immed
     immed.report(rep, "B9", floor=8)      # conversions BInt -> machine integer outside the table: bintSmall only on immediates
     rep.floor("builtins with at least two comparable copies", compared, 150)
